@@ -260,6 +260,42 @@ func Run(sc Scenario) Result {
 			close(gt.release)
 			<-sendDone
 			<-rmDone
+		case "getters":
+			// read-only calls (getters, IsAnyPipelineRegistered) from several goroutines while others register and set thresholds
+			var w3 sync.WaitGroup
+			stop := make(chan struct{})
+			for i := 0; i < 4; i++ {
+				w3.Add(1)
+				go func(i int) {
+					defer w3.Done()
+					for {
+						select {
+						case <-stop:
+							return
+						default:
+						}
+						b.SuccessThreshold("outer")
+						b.SuccessThresholdSinks("inner")
+						b.IsAnyPipelineRegistered("outer")
+					}
+				}(i)
+			}
+			for i := 0; i < 2; i++ {
+				w3.Add(1)
+				go func(i int) {
+					defer w3.Done()
+					for j := 0; j < 30000; j++ {
+						b.RegisterNode(eventlogger.NodeID(fmt.Sprintf("spare%d", i)), &sink{})
+						if j%64 == 0 {
+							b.SetSuccessThreshold("outer", 0)
+							b.Send(ctx, "inner", "x")
+						}
+					}
+				}(i)
+			}
+			time.Sleep(300 * time.Millisecond)
+			close(stop)
+			w3.Wait()
 		case "mixed":
 			var w2 sync.WaitGroup
 			for i := 0; i < 4; i++ {
@@ -415,6 +451,7 @@ func Scenarios() []Scenario {
 		sc.Name = "failed/" + f
 		out = append(out, sc)
 	}
+	add(Scenario{Op: "getters", Cb: "none"})
 	add(Scenario{Op: "mixed", Cb: "process", Pending: 2})
 	add(Scenario{Op: "mixed", Cb: "reopen", Pending: 1})
 	add(Scenario{Op: "mixed", Cb: "close", Pending: 3})
